@@ -399,17 +399,17 @@ def _c12(w, ds, sch, raws, pen, sname, complete, pivot):
 CHECKS: Dict[str, Callable] = {"C02": _c02, "C13": _c13, "C04": _c04, "C05": _c05, "C06": _c06, "C07": _c07, "C08": _c08,
                                "C09": _c09, "C10": _c10, "C11": _c11, "C12": _c12}
 QUICK_DATASETS = {
-    "C02": ["ties-incomplete", "sparse-components", "strings", "with-empty"],
-    "C13": ["ties-incomplete", "sparse-components", "four-mixed", "big-bucket"],
-    "C04": ["later-id-first", "ties-incomplete", "sparse-components", "with-empty"],
-    "C05": ["cycle3", "ties-incomplete", "sparse-components", "later-id-first", "head-merge", "big-bucket"],
-    "C06": ["cycle3", "sparse-components", "digit-component", "four-mixed", "ties-incomplete", "big-bucket"],
-    "C07": ["head-merge", "two-opposed", "ties-incomplete", "four-mixed", "cycle3", "sparse-components"],
-    "C08": ["later-id-first", "four-mixed", "big-bucket", "ties-incomplete"],
-    "C09": ["later-id-first", "ties-incomplete", "sparse-components", "big-bucket"],
-    "C10": ["unanimous", "ties-incomplete", "two-opposed", "four-mixed"],
+    "C02": ["six-mixed", "ties-incomplete", "sparse-components", "strings", "with-empty"],
+    "C13": ["six-mixed", "ties-incomplete", "sparse-components", "four-mixed", "big-bucket"],
+    "C04": ["four-mixed", "later-id-first", "ties-incomplete", "sparse-components", "with-empty"],
+    "C05": ["five-cycle-ties", "cycle3", "ties-incomplete", "sparse-components", "later-id-first", "head-merge", "big-bucket"],
+    "C06": ["five-cycle-ties", "cycle3", "sparse-components", "digit-component", "four-mixed", "ties-incomplete", "big-bucket"],
+    "C07": ["five-cycle-ties", "head-merge", "two-opposed", "ties-incomplete", "four-mixed", "cycle3", "sparse-components"],
+    "C08": ["six-mixed", "later-id-first", "four-mixed", "big-bucket", "ties-incomplete"],
+    "C09": ["six-mixed", "later-id-first", "ties-incomplete", "sparse-components", "big-bucket"],
+    "C10": ["six-mixed", "unanimous", "ties-incomplete", "two-opposed", "four-mixed"],
     "C11": ["unanimous", "strings", "ties-incomplete", "big-bucket", "two-opposed"],
-    "C12": ["ties-incomplete", "four-mixed", "with-empty", "big-bucket"],
+    "C12": ["six-mixed", "ties-incomplete", "four-mixed", "with-empty", "big-bucket"],
 }
 QUICK_SCHEMES = {
     "C02": ["generic", "unifying"], "C13": ["generic", "unifying", "induced"], "C04": ["unifying", "unifying-p0.5", "generic"],
